@@ -526,6 +526,24 @@ class C12(core.Check):
 
         mesh = cb.Mesh()
         obs: List[Any] = []
+        states: List[str] = []
+
+        def state_digest() -> str:
+            """internals of the Mesh object after a call (compared with the state of the model)"""
+            ids = {id(op): i for i, op in ops.items()}
+            pl = mesh.patch_list
+            return (
+                "A[" + ",".join(str(ids.get(id(op), "?")) for op in getattr(mesh, "assembled", [])) + "]"
+                + "D[" + ",".join(str(i) for i in sorted(ids.get(id(op), -1) for op in mesh.deleted)) + "]"
+                + "P[" + ",".join(f"{n}:{p.kind}:{len(p.sides)}" for n, p in pl.patches.items()) + "]"
+                + "M[" + ",".join(sorted(getattr(pl, "modified", []))) + "]"
+                + f"N[{len(mesh.vertex_list.vertices)},{len(mesh.block_list.blocks)},{len(mesh.edge_list.edges)},{len(mesh.face_list.faces)}]"
+                + "G[" + ",".join(mesh.geometry_list.geometry.keys()) + "]"
+                + ("d[" + (f"{pl.default['name']}:{pl.default['kind']}" if pl.default else "") + "]")
+                + f"m[{len(pl.merged)}]"
+                + f"dup[{len(mesh.vertex_list.duplicated) == len(mesh.vertex_list.vertices)}]"
+            )
+
         fd, path = tempfile.mkstemp(prefix="cbv-c12-")
         os.close(fd)
         try:
@@ -602,12 +620,13 @@ class C12(core.Check):
                     except Exception as e:
                         o = {"err": type(e).__name__}
                 obs.append(o)
+                states.append(state_digest())
         finally:
             os.unlink(path)
         # the fresh, equivalent meshes the oracle wants are built by the oracle itself (it runs in the parent
         # process); to keep that cheap they are built here, in the worker, for every successful write
         fresh = self._fresh_texts(case, obs)
-        return {"obs": obs, "fresh": fresh}
+        return {"obs": obs, "fresh": fresh, "states": states}
 
     # -- expected geometry, tracked from the case and the observed moves only
     def _shadow(self, case: dict, obs: List[Any]):
@@ -885,6 +904,10 @@ class C12(core.Check):
         if len(parts) != len(case["steps"]):
             return f"model answered {len(parts)} observations for {len(case['steps'])} calls"
         for n, (st, o, a) in enumerate(zip(case["steps"], impl["obs"], parts)):
+            a, _, digest = a.partition("@")
+            why = self._compare_state(impl.get("states", [None] * (n + 1))[n], digest)
+            if why:
+                return f"call {n} ({st[0]}): state after the call: {why}"
             if st[0] == "wr":
                 if "err" in o:
                     want = self.ERR.get(o["err"], "err:" + o["err"])
@@ -907,6 +930,25 @@ class C12(core.Check):
                     return f"call {n} (backport): implementation {want[:500]} / model {a[:500]}"
             elif a != ".":
                 return f"call {n} ({st[0]}): model observation {a}"
+        return None
+
+    @staticmethod
+    def _compare_state(got: Optional[str], model: str) -> Optional[str]:
+        """implementation internals vs. model state; sets (deleted, modified) are compared as sets"""
+        if got is None:
+            return None
+        sec = lambda t: dict(re.findall(r"([A-Za-z]+)\[([^\]]*)\]", t))
+        g, m = sec(got), sec(model)
+        if g.pop("dup", "True") != "True":
+            return "VertexList.duplicated does not hold one entry per vertex"
+        for k in m:
+            a, b = g.get(k), m[k]
+            if k in ("D", "M"):
+                a, b = sorted(set(x for x in a.split(",") if x)), sorted(set(x for x in b.split(",") if x))
+            if a != b:
+                names = {"A": "Mesh.assembled", "D": "Mesh.deleted", "P": "PatchList.patches (name:type:sides)", "M": "PatchList.modified",
+                         "N": "sizes of vertex/block/edge/face lists", "G": "geometry names", "d": "default patch", "m": "merged pairs"}
+                return f"{names.get(k, k)}: implementation {a} / model {b}"
         return None
 
     # ------------------------------------------------------------------ oracle
